@@ -27,6 +27,17 @@ func genC06(rt *rapid.T) World {
 	w.Spec.TemplateVolumes = rapid.SampledFrom([]int{0, 0, 1}).Draw(rt, "templateVolumes")
 	w.Spec.ClaimLabels = rapid.Bool().Draw(rt, "claimLabels")
 	w.Spec.Service = rapid.SampledFrom([]string{"", "svc", "headless-svc"}).Draw(rt, "service")
+	if w.Spec.Claims > 0 && rapid.IntRange(0, 7).Draw(rt, "digitNameHighOrdinals") == 0 {
+		// a set whose name ends in a digit, with its ordinals pushed into two digits by a block of delete slots
+		w.Spec.Name = rapid.SampledFrom([]string{"web-1", "db1", "tikv-2"}).Draw(rt, "digitName")
+		w.Spec.Slots = nil
+		for k := int32(0); k < 10; k++ {
+			w.Spec.Slots = append(w.Spec.Slots, k)
+		}
+		w.Spec.R = int32(rapid.IntRange(3, 5).Draw(rt, "digitNameReplicas"))
+		w.Pods = nil
+		rt.Logf("digit name %s", w.Spec.Name)
+	}
 	if rapid.IntRange(0, 3).Draw(rt, "orphanRecreate") == 0 {
 		// orphaning delete + re-creation with another governing service / claim list, then an ordinal is created again
 		seq := []Op{{K: OpReconcile}, {K: OpSetRecreate, A: 1, B: 100 + rapid.IntRange(0, 2).Draw(rt, "orcKind")},
